@@ -177,6 +177,72 @@ def build_harness(profile):
 PRIVATE_BINS = []
 
 
+def cpu_flags():
+    try:
+        for line in open("/proc/cpuinfo"):
+            if line.startswith("flags"):
+                return set(line.split(":", 1)[1].split())
+    except OSError:
+        pass
+    return set()
+
+
+# the crate (and the harness) compiled with other RUSTFLAGS: anything selected by `cfg(target_feature = …)` at COMPILE
+# time is exercised by none of the ordinary builds.  (name, RUSTFLAGS, CPU flags the machine must report to run it)
+BUILD_VARIANTS = [
+    ("native", "-C target-cpu=native", []),
+    ("avx2", "-C target-feature=+avx2", ["avx2"]),
+    ("ssse3", "-C target-feature=+ssse3", ["ssse3"]),
+    ("sse41", "-C target-feature=+sse4.1,+ssse3", ["sse4_1", "ssse3"]),
+]
+
+
+def build_variant(name, rustflags):
+    """the release harness in its own target directory with RUSTFLAGS; returns (ok, note, binary)"""
+    tdir = os.path.join(HARNESS, "target", "variant-" + name)
+    binp = os.path.join(tdir, "release", "rsharness")
+    env = dict(os.environ)
+    env["RUSTFLAGS"] = rustflags
+    with Lock("cargo-" + name):
+        rc, out = sh(["cargo", "build", "--offline", "--release", "--target-dir", tdir], cwd=HARNESS, timeout=3600, env=env)
+        if rc != 0:
+            return False, out[-1500:], binp
+        import shutil
+        d = os.path.join(HARNESS, "target", "runs")
+        os.makedirs(d, exist_ok=True)
+        dst = os.path.join(d, f"rsharness-variant-{name}-{os.getpid()}")
+        shutil.copy2(binp, dst)
+        PRIVATE_BINS.append(dst)
+        return True, "", dst
+
+
+def run_build_variants(pid, tier, notes):
+    """engine agreement for every log_m, round trips and the XOR-parity closed form in binaries built with other RUSTFLAGS"""
+    flags = cpu_flags()
+    findings, n = [], 0
+    todo = BUILD_VARIANTS if tier == "thorough" else BUILD_VARIANTS[:2]
+    for name, rf, need in todo:
+        if any(f not in flags for f in need):
+            notes.append(f"build variant {name} ({rf}) not run: this CPU does not report {need}")
+            continue
+        ok, note, vbin = build_variant(name, rf)
+        if not ok:
+            notes.append(f"build variant {name} ({rf}) does not compile: {note[-300:]}")
+            continue
+        try:
+            rc, out = sh([vbin, "env-child", "0"], timeout=600)
+        except subprocess.TimeoutExpired:
+            rc, out = 1, "timeout"
+        n += 1
+        if rc != 0 or not out.strip().startswith("OK"):
+            findings.append({"class": "oracle",
+                             "what": f"crate built with RUSTFLAGS='{rf}': {out.strip()[-400:]}",
+                             "case": {"name": f"build-variant {name}",
+                                      "lines": [f"RUSTFLAGS='{rf}' cargo build --offline --release (in /verif/harness) && rsharness env-child 0"]}})
+    return {"profile": "build-variants", "findings": findings, "evaluations": n, "distinct_nontrivial": n,
+            "counters": {"build_variants_run": n}, "distribution": {}, "notes": []}
+
+
 def repo_fingerprint():
     import hashlib
     h = hashlib.sha256()
@@ -300,6 +366,9 @@ def main():
         rep["profile"] = prof
         reports.append(rep)
         os.remove(outp)
+
+    if meta.get("build_variants"):
+        reports.append(run_build_variants(pid, tier, notes))
 
     # ---- 4. classification
     known = load_known()
